@@ -53,6 +53,14 @@ func (vc *VC) collectReplayInputs(fr *Frame, st *State) {
 		return
 	}
 	vc.replayOK = true
+	// naming the input locations must not add a single assumption to the VC: collect in the
+	// "inside a quantifier" mode (no facts, no definitions) and roll back whatever was emitted
+	snap := vc.snapshot()
+	vc.inQuant++
+	defer func() {
+		vc.inQuant--
+		vc.restore(snap)
+	}()
 	for _, p := range fn.Params {
 		vc.replayWalk(st, p.Name(), p.Type(), fr.vals[p], 0)
 	}
